@@ -1,5 +1,6 @@
 import SJ.Spec.Value
 import SJ.Spec.Ieee
+import SJ.Gen.Pow10
 /-!
 # Number conversion of the text deserializer (`src/de.rs`), as functions of the scanned literal
 
@@ -32,8 +33,13 @@ def i32Max : Nat := 2 ^ 31 - 1
 
 def clampI32 (x : Int) : Int := if x > 2147483647 then 2147483647 else if x < -2147483648 then -2147483648 else x
 
-/-- `POW10[i]` — rustc rounds the literal `1e<i>` correctly -/
-def pow10 (i : Nat) : UInt64 := (roundNE64 false (10 ^ i) 1).getD (F64.inf false)
+/-- a float literal `1e<k>` of the source: rustc rounds it correctly (an out-of-range literal does not
+    compile; modelled as `+∞`) -/
+def lit10 (k : Nat) : UInt64 := (roundNE64 false (10 ^ k) 1).getD (F64.inf false)
+
+/-- `POW10.get(i)`: the table is re-extracted from `src/de.rs` on every run (`Gen.pow10Exps`: entry `i`
+    is the literal `1e<pow10Exps[i]>`, as written); `None` beyond its end -/
+def pow10 (i : Nat) : Option UInt64 := (Gen.pow10Exps[i]?).map lit10
 
 inductive FRes where
   | ok (bits : UInt64)
@@ -41,22 +47,33 @@ inductive FRes where
   | outOfFuel
 deriving Repr, DecidableEq
 
-/-- `f64_from_parts` (non-`float_roundtrip`), loop transcribed with explicit fuel. -/
+/-- `f64_from_parts` (non-`float_roundtrip`), loop transcribed with explicit fuel:
+    ```
+    match POW10.get(exponent.wrapping_abs() as usize) {
+        Some(&pow) => { if exponent >= 0 { f *= pow; if f.is_infinite() { return Err(NumberOutOfRange) } }
+                        else { f /= pow; } break; }
+        None => { if f == 0.0 { break; } if exponent >= 0 { return Err(NumberOutOfRange) }
+                  f /= 1e308; exponent += 308; }
+    }
+    ```
+    (`1e308` / `308` are `Gen.fromPartsBigExp` / `Gen.fromPartsStep`, re-extracted as well). -/
 def f64FromPartsLoop : Nat → UInt64 → Int → FRes
   | 0, _, _ => .outOfFuel
   | fuel + 1, f, exponent =>
     let idx := exponent.natAbs      -- `exponent.wrapping_abs() as usize`; i32::MIN ↦ 2^31 (as usize: huge) — out of table either way
-    if idx < 309 then
+    match pow10 idx with
+    | some pow =>
       if exponent ≥ 0 then
-        let f' := F64.mul f (pow10 idx)
+        let f' := F64.mul f pow
         if F64.isInf f' then .outOfRange else .ok f'
-      else .ok (F64.div f (pow10 idx))
-    else if F64.isZero f then .ok f
-    else if exponent ≥ 0 then .outOfRange
-    else f64FromPartsLoop fuel (F64.div f (pow10 308)) (exponent + 308)
+      else .ok (F64.div f pow)
+    | none =>
+      if F64.isZero f then .ok f
+      else if exponent ≥ 0 then .outOfRange
+      else f64FromPartsLoop fuel (F64.div f (lit10 Gen.fromPartsBigExp)) (exponent + Gen.fromPartsStep)
 
 def f64FromParts (positive : Bool) (significand : Nat) (exponent : Int) : FRes :=
-  match f64FromPartsLoop ((exponent.natAbs / 308) + 3) (F64.ofU64 significand) exponent with
+  match f64FromPartsLoop ((exponent.natAbs / Gen.fromPartsStep) + 3) (F64.ofU64 significand) exponent with
   | .ok f => .ok (if positive then f else F64.neg f)
   | r => r
 
@@ -194,10 +211,13 @@ def convertRoundtrip (p : Parts) : NRes :=
 where
   conv (p : Parts) : NRes :=
     match exact p with
-    | .zero => .f64 (signBit p.neg)
-    | .tiny => .f64 (signBit p.neg)
+    | .zero => .f64 (F64.zero p.neg)
+    | .tiny => .f64 (F64.zero p.neg)
     | .huge => .outOfRange
-    | .rat n d => match roundNE64 p.neg n d with
+    | .rat n d =>
+      -- (`exact` never yields a zero denominator; the test keeps kernel reduction from unfolding
+      --  `roundNE64` on open terms — it gets stuck here instead)
+      match (if d == 0 then none else roundNE64 p.neg n d) with
       | some b => .f64 b
       | none => .outOfRange
 
